@@ -270,6 +270,51 @@ def r3_result(ctx, sym, mod, rule='R3'):
                       "evaluate('flag') after the student's flag went from 1 to True still shows 1: str() gives '1'")
 
 
+def r3b_result_through_entry_points(ctx, sym, mod, rule='R3'):
+    ctx.rule(rule, "... and through the entry points: Sandbox.evaluate and Sandbox.call executed abstractly (the execution "
+                   "itself stubbed: it stores the student's object in the target) unthreaded, threaded by argument and "
+                   "threaded by the sandbox's own setting: the value handed back wraps the very object the student code "
+                   "produced, not a copy of it")
+    from .. import symexec
+    for entry in ('evaluate', 'call'):
+        fn = mod.func('Sandbox.' + entry)
+        ctx.analysed_function(mod, fn)
+        for threaded_arg, threaded_attr in ((None, False), (None, True), (True, False), (False, True)):
+            rec = symexec.Recorder()
+            produced = Obj('the-object-the-student-code-produced')
+            attrs = dict(symexec.init_literals(mod, 'Sandbox'))
+            attrs.update(data={'f': Obj('student-function')}, functions={'f'}, exception=None, result=None, _context=[],
+                         threaded=threaded_attr, _next_context_id=7,
+                         report=Obj('report', submission=Obj('submission', instructor_file='on_run.py')))
+            me = symexec.self_obj(mod, 'Sandbox', **attrs)
+
+            def execute(*a, **k):
+                rec.events.append(('_execute', a, k))
+                me.attrs['data'][me.attrs.get('target', '_')] = produced
+                me.attrs['_context'].append(Obj('context', id=7, __open__=True))
+                return me
+            symexec.method(me, '_execute', execute)
+            symexec.method(me, '_construct_call', lambda *a, **k: ('_ = f()', 'f()', {}))
+            symexec.method(me, '_purge_temporaries', lambda *a, **k: None)
+            symexec.method(me, 'set_input', lambda *a, **k: None)
+            proxy = rec.stub('proxy', fn=lambda v, *a, **k: Obj('proxy', wrapped=v, value=v, _actual_value=v))
+            proxy._fd_callable = True
+            me.attrs['result_proxy_class'] = proxy
+            copied = lambda v, *a, **k: Obj('a-copy', of=v)
+            fd = symexec.new_fd(sym, mod, calls={'deepcopy': copied, 'copy.deepcopy': copied, 'copy.copy': copied,
+                                                 'copy': copied})
+            kwargs = {} if threaded_arg is None else {'threaded': threaded_arg}
+            got, raised = symexec.run(fd, fn, ['f'] if entry == 'call' else ['score'], kwargs, bound_self=me,
+                                      what='Sandbox.' + entry)
+            inner = got.attrs.get('wrapped') if isinstance(got, Obj) else got
+            tag = '%s[threaded=%r,sandbox.threaded=%r]' % (entry, threaded_arg, threaded_attr)
+            ctx.check(raised is None and inner is produced, rule, tag, mod, fn,
+                      "%s hands back a proxy of %r, not of the object the student code stored in the target%s" % (
+                          entry, inner, '' if raised is None else ' (raises %s)' % raised.kind),
+                      "sandbox.threaded = True (the GradeScope default); first = call('make_node'); "
+                      "call('all_nodes')  ->  `first in nodes` is False, ranks[first] raises KeyError")
+
+
 def r4_exception_line(ctx, sym):
     ctx.rule('R4', "ExpandedTraceback.__init__ executed abstractly on model tracebacks 1 to 1500 calls deep: the line "
                    "reported for an exception is the raising line of the innermost entry (the rule of C17.R2, decided "
@@ -585,12 +630,18 @@ def run(ctx):
     r1_source_unmodified(ctx, sym, mod)
     r2_arguments(ctx, sym, mod)
     r3_result(ctx, sym, mod)
+    r3b_result_through_entry_points(ctx, sym, mod)
     r4_exception_line(ctx, sym)
     r5_output_verbatim(ctx, sym, mod)
     r6_inputs_verbatim(ctx, sym, mod)
     r7_imports_delegated(ctx, sym)
     r8_namespace_kept(ctx, sym, mod)
     r10_trace_functions_only_store(ctx, sym)
+    ctx.rule('R11', "a submission file imported by the student's program in threaded mode is the module: "
+                    "Sandbox._import hands back timeout(...)'s value, so timeout(), executed abstractly on a thread that "
+                    "finishes in time, returns what the function returned")
+    from .c14 import timeout_returns_result
+    timeout_returns_result(ctx, sym, 'R11')
     ctx.assume("observational equivalence itself (printed text, global values, exception kind and line for every "
                "program and input) is NOT decided: only the three structural clauses above, each a necessary "
                "condition of it; the input tracker's behaviour is decided under C15.R4, the patches' restoration "
